@@ -12,7 +12,22 @@ open Fs.Wire Fs.Flow
 def mstHook (env : Env F) (r : Run) (k : Nat) (perms : List (Nat × List Nat)) (boruvka carve : Bool) : Run :=
   let perm := ((perms.find? (·.1 == k)).map (·.2)).getD []
   let o := Fs.Mst.resolve S env r.g r.elev boruvka carve perm Fs.Gen.maxLowDegree
-  { r with g := o.g, elev := look o.elev 0.0, hang := r.hang || o.hang }
+  -- certificate for the spanning tree this resolver run used (either method): the raw tree is a
+  -- minimum-weight spanning forest of the lowest-pass edges (`certOk_sound`) and keeps every
+  -- virtual root edge - the two tree facts `resolve_c01_tree` / `resolve_le_of_low` assume
+  let n := env.topo.n
+  let b := basins n r.g env.mask env.isBase
+  let note : List String :=
+    if b.pits.isEmpty then []
+    else
+      let cb := Fs.Mst.connectBasins S env.topo env.mask env.isBase (recv0 r.g) r.g.dfs (look b.labels 0) b.outlets r.elev
+      let nb := b.outlets.length
+      let tree0 := if boruvka then Fs.Mst.boruvka S nb cb.edges Fs.Gen.maxLowDegree else Fs.Mst.kruskal nb cb.edges perm
+      let virt := (List.range cb.edges.size).filter (fun i => match cb.edges[i]? with
+        | some ed => ed.p0 == Fs.Mst.none | Option.none => false)
+      let ok := Fs.Mst.certOk S nb cb.edges tree0 && virt.all (fun i => tree0.contains i)
+      [line "cert_mst" (if ok then "1" else "0")]
+  { r with g := o.g, elev := look o.elev 0.0, hang := r.hang || o.hang, notes := r.notes ++ note }
 
 /-- `bgraph <k|b> <elev…> [reps]`: basin graph built directly on the current single-direction graph -/
 def callBgraph (c : Call) (st : St) : List String :=
